@@ -6,10 +6,14 @@ import (
 	"bytes"
 	"encoding/json"
 	"fmt"
+	"math"
 	"os"
 	"sort"
+	"strconv"
 	"strings"
 	"testing"
+
+	"golang.org/x/perf/benchunit"
 
 	mc "golang.org/x/perf/internal/verifmc"
 )
@@ -528,6 +532,102 @@ func c01SpaceB2(c *mc.Check, depth int) {
 	f.Done()
 }
 
+// c01Values: every value of the lattice survives the round trip, written as
+// a plain measurement and as the original of a rescaled one.
+func c01Values(c *mc.Check, n, kmax int) {
+	replay := func(raw json.RawMessage) string {
+		var bits []uint64
+		if err := json.Unmarshal(raw, &bits); err != nil {
+			return err.Error()
+		}
+		vals := make([]float64, len(bits))
+		for i, b := range bits {
+			vals[i] = math.Float64frombits(b)
+		}
+		_, msg := c01CheckValues(vals)
+		return msg
+	}
+	f := c.Family("float-values", fmt.Sprintf("every value of a deterministic lattice (±%d ulp around every power of ten 1e-7…1e23, k/997·10^j for k≤%d, neighbourhoods of 2^50…2^64, specials) written through the API as a plain measurement and as the original value of a rescaled measurement, 64 results per stream: the read-back written value is bit-identical; non-trivial = values needing ≥16 significant digits", n, kmax), replay)
+	if c.Replaying() {
+		return
+	}
+	vals := valueLattice(n, kmax)
+	f.Bounds["values"] = len(vals)
+	const batch = 64
+	nb := (len(vals) + batch - 1) / batch
+	mc.ParRange(uint64(nb), 4, c.TimeUp, func(w int, lo, hi uint64) {
+		l := f.Local()
+		for b := lo; b < hi; b++ {
+			part := vals[b*batch : min(int(b+1)*batch, len(vals))]
+			var bad int
+			var msg string
+			if p := mc.Catch(func() { bad, msg = c01CheckValues(part) }); p != "" {
+				bad, msg = 0, p
+			}
+			for _, v := range part {
+				l.Evals++
+				if len(strconv.FormatFloat(v, 'e', -1, 64)) >= 20 {
+					l.Nontrivial++
+					l.Outcome("long-mantissa")
+				} else {
+					l.Outcome("short-mantissa")
+				}
+			}
+			if msg != "" {
+				c.Fail(f, "value-roundtrip", []uint64{math.Float64bits(part[bad])}, msg)
+			}
+		}
+		l.Flush()
+	})
+	f.Sample(203.18687664732286)
+	f.Done()
+}
+
+func c01CheckValues(vals []float64) (int, string) {
+	var out bytes.Buffer
+	w := NewWriter(&out)
+	for i, v := range vals {
+		tv, tu := benchunit.Tidy(v, "ns/op")
+		r := &Result{Name: Name("V"), Iters: i + 1, Values: []Value{{Value: v, Unit: "u"}, {Value: tv, Unit: tu, OrigValue: v, OrigUnit: "ns/op"}}}
+		if err := w.Write(r); err != nil {
+			return i, err.Error()
+		}
+	}
+	rd := NewReader(bytes.NewReader(out.Bytes()), "out")
+	i := 0
+	for rd.Scan() {
+		res, ok := rd.Result().(*Result)
+		if !ok {
+			return i, fmt.Sprintf("value %v: writer output does not parse: %v", vals[min(i, len(vals)-1)], rd.Result())
+		}
+		if i >= len(vals) {
+			return len(vals) - 1, "extra result"
+		}
+		v := vals[i]
+		if len(res.Values) != 2 {
+			return i, "expected two measurements"
+		}
+		same := func(a, b float64) bool {
+			return math.Float64bits(a) == math.Float64bits(b) || (math.IsNaN(a) && math.IsNaN(b))
+		}
+		if !same(res.Values[0].Value, v) || res.Values[0].Unit != "u" {
+			return i, fmt.Sprintf("value %s (%v u) read back as %s %s", fbits(v), v, fbits(res.Values[0].Value), res.Values[0].Unit)
+		}
+		ov, ou := res.Values[1].OrigValue, res.Values[1].OrigUnit
+		if ou == "" {
+			ov, ou = res.Values[1].Value, res.Values[1].Unit
+		}
+		if !same(ov, v) || ou != "ns/op" {
+			return i, fmt.Sprintf("original value %s (%v ns/op) read back as %s %s", fbits(v), v, fbits(ov), ou)
+		}
+		i++
+	}
+	if i != len(vals) {
+		return min(i, len(vals)-1), fmt.Sprintf("%d results read back, %d written", i, len(vals))
+	}
+	return 0, ""
+}
+
 func TestVerifC01(t *testing.T) {
 	c := mc.NewCheck("C01")
 	c.Assume("the Reader is the read-back oracle; it is checked against the independent format model by C02")
@@ -536,6 +636,7 @@ func TestVerifC01(t *testing.T) {
 	c01SpaceA(c, "space-text-full", c01Full, mc.Pick(c, 4, 6), mc.Pick(c, 300000, 3000000))
 	c01SpaceB(c, mc.Pick(c, 40, 40))
 	c01SpaceB2(c, mc.Pick(c, 40, 40))
+	c01Values(c, mc.Pick(c, 64, 1024), mc.Pick(c, 20000, 200000))
 	if code := c.Finish(); code != 0 {
 		os.Exit(code)
 	}
